@@ -1,8 +1,9 @@
 import Pyrtma.Drv.Validators
 import Pyrtma.Spec.Serial
+import Pyrtma.Model.Json
 /-! Line-protocol driver for M5 (grammar: harness/serial_corr.py). -/
 namespace Pyrtma.Drv.Serial
-open Pyrtma.Validators Pyrtma.Serial Pyrtma.Drv Pyrtma.Drv.Validators
+open Pyrtma.Validators Pyrtma.Serial Pyrtma.Json Pyrtma.Drv Pyrtma.Drv.Validators
 
 structure Leaf where
   off : Nat
@@ -100,8 +101,19 @@ structure FdProbe where
   impl : Option Bytes
   val : Option Val
 
+/-- hex of ASCII text -> characters -/
+def hexText (h : String) : List Char := (hexBytes h).map Char.ofNat
+
 structure Case where
   id : String := ""
+  /-- float bit pattern -> the token Python's `json` writes for it -/
+  ftoks : List (Nat × List Char) := []
+  jmin : Option (List Char) := none
+  jpretty : Option (List Char) := none
+  hdesc : Option (Option Desc) := none
+  hbytes : Bytes := []
+  hjmin : Option (List Char) := none
+  hjpretty : Option (List Char) := none
   desc : Option (Option Desc) := none
   dict : Option (Option Val) := none
   probes : List FdProbe := []
@@ -162,8 +174,48 @@ def wholeCorr (c : Case) : List String :=
         | some ib, some e => [s!"{c.id} CORR diff fromDictWhole/{p.name} model=[err {showDErr e}] impl=[{showHex ib}]"]
     d0 ++ d1 ++ d2 ++ d3
 
+def firstDiff : List Char → List Char → Nat → Nat
+  | a :: as, b :: bs, i => if a == b then firstDiff as bs (i + 1) else i
+  | _, _, i => i
+
+/-- a one-line window around position `i` -/
+def window (s : List Char) (i : Nat) : String :=
+  String.ofList (((s.drop (i - 40)).take 120).map fun c => if c == '\n' then '|' else c)
+
+/-- one text against the model: the encoder's document is in the subset, `render` gives the text byte for byte, `parse`
+reads the real text back as that document -/
+def textCorr (id what : String) (ind : Option Nat) (doc : Option J) (text : Option (List Char)) : List String :=
+  match text with
+  | none => []
+  | some t =>
+    match doc with
+    | none => [s!"{id} CORR diff {what}: the dictionary has a value outside the modelled JSON subset"]
+    | some j =>
+      (if j.okB then [] else [s!"{id} CORR diff {what}: document outside the domain of parse_render (okB false)"]) ++
+      (if render ind 0 j == t then [] else
+        (let r := render ind 0 j
+         let i := firstDiff r t 0
+         [s!"{id} CORR diff {what}/render at char {i} of {t.length} model=[{window r i}] impl=[{window t i}]"])) ++
+      (if parse t == some j then [] else [s!"{id} CORR diff {what}/parse: the model parser does not read the real text back as the document"])
+
+/-- JSON text correspondence: `to_json(minify=True)`, `to_json()`, and `Message.to_json` (header plus data), both forms -/
+def jsonCorr (c : Case) : List String :=
+  match c.desc with
+  | some (some d) =>
+    let ftok : Nat → List Char := fun b => ((c.ftoks.find? (·.1 == b)).map (·.2)).getD []
+    let jd := toJ ftok (toDict d c.b0)
+    let msg : Option J := match c.hdesc with
+      | some (some hd) =>
+        match toJ ftok (toDict hd c.hbytes), jd with
+        | some jh, some j => some (.obj (.cons (keyOf "header") jh (.cons (keyOf "data") j .nil)))
+        | _, _ => none
+      | _ => none
+    textCorr c.id "jsonMin" none jd c.jmin ++ textCorr c.id "jsonPretty" (some 2) jd c.jpretty ++
+      textCorr c.id "msgJsonMin" none msg c.hjmin ++ textCorr c.id "msgJsonPretty" (some 2) msg c.hjpretty
+  | _ => []
+
 def finish (c : Case) : List String :=
-  let diffs := wholeCorr c ++ c.leaves.reverse.flatMap (leafCorr c)
+  let diffs := wholeCorr c ++ jsonCorr c ++ c.leaves.reverse.flatMap (leafCorr c)
   let corr := if diffs.isEmpty then [s!"{c.id} CORR ok"] else diffs.take 3
   let o : Pyrtma.Serial.Obs := { orig := c.b0, trips := c.trips, copyShares := c.copyShares, vers := c.vers }
   let prop := match firstFalse (Pyrtma.Serial.clauses o) with
@@ -179,6 +231,14 @@ def step (st : Case × List String) (line : String) : Case × List String :=
     (match splitBar r with
      | [ft, v] => ({ c with leaves := { off := natOf off, ty := ftyOf ft, val := valOf v } :: c.leaves }, out)
      | _ => (c, out))
+  | ["FTOK", h, t] => ({ c with ftoks := (hexNat h, t.toList) :: c.ftoks }, out)
+  | ["JMIN", h] => ({ c with jmin := some (hexText h) }, out)
+  | ["JPRETTY", h] => ({ c with jpretty := some (hexText h) }, out)
+  | "HDESC" :: r =>
+    ({ c with hdesc := some (match parseDesc (r.length + 1) r with | some (d, []) => some d | _ => none) }, out)
+  | ["HB", h] => ({ c with hbytes := hexBytes h }, out)
+  | ["HJMIN", h] => ({ c with hjmin := some (hexText h) }, out)
+  | ["HJPRETTY", h] => ({ c with hjpretty := some (hexText h) }, out)
   | "DESC" :: r =>
     ({ c with desc := some (match parseDesc (r.length + 1) r with | some (d, []) => some d | _ => none) }, out)
   | "DICT" :: r =>
